@@ -9,6 +9,7 @@ import (
 	"os/exec"
 	"path/filepath"
 	"runtime"
+	"runtime/debug"
 	"sort"
 	"strconv"
 	"strings"
@@ -83,6 +84,19 @@ func emit(w *bufio.Writer, r *Result) {
 	w.Flush()
 }
 
+// safeRun turns a panic that escapes a driver (engine B runs library code on
+// the worker's own goroutine) into a violation of that run.
+func safeRun(prop *Prop, t *testing.T, c *choice.Stream, r *Result, opt RunOpt) {
+	defer func() {
+		if p := recover(); p != nil {
+			st := string(debug.Stack())
+			r.frozen = false
+			r.Violate("panic", "panic:"+firstLibFrame(st), "panic: %v\n%.2000s", p, st)
+		}
+	}()
+	prop.Run(t, c, r, opt)
+}
+
 func TestWorker(t *testing.T) {
 	mode := os.Getenv("VERIF_MODE")
 	if mode != "worker" && mode != "replay" {
@@ -115,7 +129,7 @@ func TestWorker(t *testing.T) {
 		fmt.Fprintf(out, "S %d\n", rf.Index)
 		out.Flush()
 		fmt.Fprintf(os.Stderr, "S %d\n", rf.Index)
-		prop.Run(t, c, r, opt)
+		safeRun(prop, t, c, r, opt)
 		if r.Outcome == "" {
 			r.Outcome = "ok"
 		}
@@ -135,7 +149,7 @@ func TestWorker(t *testing.T) {
 		if prop.OnStderr != nil {
 			fmt.Fprintf(os.Stderr, "S %d\n", i)
 		}
-		prop.Run(t, c, r, opt)
+		safeRun(prop, t, c, r, opt)
 		if r.Outcome == "" {
 			r.Outcome = "ok"
 		}
